@@ -315,6 +315,9 @@ def run(ctx, rep):
 
 _P = "flumine/order/process.py"
 MUTANTS = [
+    dict(id="c11-async-pickup-after-mapping", file="flumine/order/process.py", func="process_current_order",
+         old="    # pickup async orders\n    if order.async_ and order.bet_id is None and current_order.bet_id:\n        order.responses.placed()\n        order.bet_id = current_order.bet_id\n        log_control(OrderEvent(order, exchange=order.EXCHANGE))\n    # update status\n",
+         new="    # update status\n", expect=["R4"], why="(variant) the bet id of an async placement is never picked up"),
     dict(id="c11-second-market-object", file="flumine/baseflumine.py", func="BaseFlumine._process_market_books",
          old="            market_is_new = market is None\n", new="            market_is_new = market is None or market.market_book is None\n",
          expect=["R6"], why="a market adopted from the order stream is replaced by a fresh object with an empty blotter"),
